@@ -303,7 +303,7 @@ func (ci *ConstructorInvoker) InvokeFunc(
 	// Check for error return
 	if info.HasErrorReturn && len(results) > 0 {
 		lastResult := results[len(results)-1]
-		if !lastResult.IsNil() {
+		if !isNilValue(lastResult) {
 			if err, ok := lastResult.Interface().(error); ok {
 				return nil, fmt.Errorf("constructor error: %w", err)
 			}
@@ -311,6 +311,17 @@ func (ci *ConstructorInvoker) InvokeFunc(
 	}
 
 	return results, nil
+}
+
+// isNilValue reports whether v is nil. Values of kinds that cannot be nil
+// (an error type implemented by a struct, for example) are never nil.
+func isNilValue(v reflect.Value) bool {
+	switch v.Kind() {
+	case reflect.Pointer, reflect.Interface, reflect.Slice, reflect.Map, reflect.Chan, reflect.Func:
+		return v.IsNil()
+	}
+
+	return false
 }
 
 // invokeWithRecovery calls the constructor and recovers from any panics.
